@@ -84,6 +84,20 @@ def main():
                    'classes': sorted(set(c.split()[1] for c in cls)), 'tests_pass': tests[0],
                    'tests_tail': tests[1], 'wall_s': round(dt, 1)}
             ok = (p.returncode == 1) if expect == 'detect' else (p.returncode == 0)
+            # every replay file must reproduce in a fresh process on the mutated tree (exit 1) ...
+            rp = []
+            for l in viol[:3]:
+                path = l.split('replay=', 1)[1].strip()
+                q = subprocess.run(['timeout', '-k', '5', '120', os.path.join(HERE, 'check'), args.prop, '--replay', path,
+                                    '--root', d], capture_output=True, text=True, env=env)
+                rp.append(q.returncode)
+                # ... and must not reproduce on the unchanged tree (exit 0)
+                q2 = subprocess.run(['timeout', '-k', '5', '120', os.path.join(HERE, 'check'), args.prop, '--replay', path],
+                                    capture_output=True, text=True, env=env)
+                rp.append(q2.returncode)
+            res['replay_exits_mutated_then_clean'] = rp
+            if expect == 'detect' and any(rp[i] != (1 if i % 2 == 0 else 0) for i in range(len(rp))):
+                ok = False
             res['ok'] = ok
             if p.returncode == 2:
                 res['stderr'] = (p.stdout + p.stderr)[-800:]
